@@ -11,6 +11,8 @@ package main
 
 import (
 	"fmt"
+	"math"
+	"math/big"
 	"reflect"
 	"sort"
 	"strconv"
@@ -734,6 +736,25 @@ func (e *explorer) check(n0 int, path []op, o op, caseStr func() string) (object
 		}
 		if !object.Equals(am, rev) || object.Cmp(am, rev) != 0 || !object.Equals(rev, am) {
 			c.Fail("not-equal-to-same-content-other-history:"+opName(o), caseStr(), stateStr(am)+" vs "+stateStr(rev))
+		}
+	}
+	// key identity is the order-equivalence class (computed without object.Cmp): one stored key per class, and a
+	// key is found exactly when its class is stored
+	if am, ok := object.Object(after).(object.Map); ok && obs != "P" {
+		ps := object.VerifMapPairs(am)
+		stored := map[string]string{}
+		for i := 0; i+1 < len(ps); i += 2 {
+			ck := classKey(ps[i])
+			if prev, dup := stored[ck]; dup {
+				c.Fail("key-class-stored-twice:"+opName(o), caseStr(), fmt.Sprintf("%s from %s: %s and %s are one key, both stored in %s", o.tok, baseStr, prev, Canon(ps[i]), stateStr(am)))
+			}
+			stored[ck] = Canon(ps[i])
+		}
+		for _, k := range e.keys {
+			_, found := am.Get(k)
+			if _, has := stored[classKey(k)]; has != found {
+				c.Fail("key-class-lookup-differs:"+opName(o), caseStr(), fmt.Sprintf("after %s Get(%s) found=%v, its class stored=%v in %s", o.tok, Canon(k), found, has, stateStr(am)))
+			}
 		}
 	}
 	if st := staleSlots(after); st != "" {
@@ -1715,6 +1736,210 @@ func (e *explorer) bindingHistories() {
 	}
 }
 
+// ---------------------------------------------------------------- key classes, every insertion order
+// classKey: the order-equivalence class of a key, computed WITHOUT object.Cmp (the Go reference map above is ordered by
+// object.Cmp itself, so it inherits any incoherence of the order): numbers by their exact value (big.Rat; -0 = +0 = 0,
+// 1 = 1.0, NaN its own class, infinities), strings by bytes, booleans, nil, arrays and maps element by element.
+func classKey(o object.Object) string {
+	switch v := o.(type) {
+	case object.Integer:
+		return "n:" + new(big.Rat).SetInt64(v.Value).String()
+	case object.Float:
+		f := v.Value
+		switch {
+		case f != f:
+			return "n:nan"
+		case math.IsInf(f, 1):
+			return "n:+inf"
+		case math.IsInf(f, -1):
+			return "n:-inf"
+		}
+		r, _ := new(big.Rat).SetString(new(big.Float).SetFloat64(f).Text('g', -1)) // exact
+		if r == nil {
+			r = new(big.Rat).SetFloat64(f)
+		}
+		return "n:" + r.String()
+	case object.Boolean:
+		return "b:" + strconv.FormatBool(v.Value)
+	case object.Null:
+		return "nil"
+	case object.String:
+		return "s:" + Hx([]byte(v.Value))
+	case object.SmallArray, object.BigArray:
+		var p []string
+		for _, e := range object.Elements(o) {
+			p = append(p, classKey(e))
+		}
+		return "a[" + strings.Join(p, ",") + "]"
+	case object.Map:
+		ps := object.VerifMapPairs(v)
+		var p []string
+		for _, e := range ps {
+			p = append(p, classKey(e))
+		}
+		return "m{" + strings.Join(p, ",") + "}"
+	}
+	return "o:" + o.Type().String() + ":" + Canon(o)
+}
+
+func permute(n int, f func([]int)) {
+	p := make([]int, n)
+	for i := range p {
+		p[i] = i
+	}
+	var rec func(k int)
+	rec = func(k int) {
+		if k == n {
+			f(p)
+			return
+		}
+		for i := k; i < n; i++ {
+			p[k], p[i] = p[i], p[k]
+			rec(k + 1)
+			p[k], p[i] = p[i], p[k]
+		}
+	}
+	rec(0)
+}
+
+// keyClasses: keys drawn from equivalence classes of the key order (0 / 0.0 / -0.0, 1 / 1.0, 2^53 / its float,
+// 2^53+1, NaN, a string) inserted in EVERY order, into a small-start and a large-start map and from source; then
+// length, lookup of every member, equality between the orders, and deletion through every member, against a
+// finite map whose key identity is the class (classKey).
+func (e *explorer) keyClasses() {
+	c := e.c
+	sets := [][]string{
+		{"I0", "F0000000000000000", "F8000000000000000"},
+		{"I1", "F3ff0000000000000"},
+		{"I0", "F0000000000000000", "F8000000000000000", "I7"},
+		{"I0", "F8000000000000000", "F0000000000000000", "I7", "S61"},
+		{"I1", "F3ff0000000000000", "I0", "F8000000000000000"},
+		{"I9007199254740992", "F4340000000000000", "I9007199254740993"},
+		{"F7ff8000000000001", "F8000000000000000", "F0000000000000000", "Ffff0000000000000"},
+		{"I1", "F3ff0000000000000", "I9007199254740992", "F4340000000000000", "F7ff8000000000001"},
+		{"F0000000000000000", "F8000000000000000", "I-1", "I1", "I2"},
+		{"A[I0]", "A[F8000000000000000]", "A[F0000000000000000]", "I0"},
+	}
+	if c.Thorough() {
+		sets = append(sets,
+			[]string{"I0", "F0000000000000000", "F8000000000000000", "I1", "F3ff0000000000000", "I7"},
+			[]string{"I0", "F8000000000000000", "F0000000000000000", "I5", "I6", "I7", "I8"},
+			[]string{"F8000000000000000", "F0000000000000000", "I9007199254740992", "F4340000000000000", "I9007199254740993", "F7ff8000000000001"})
+	}
+	val := must("S78")
+	for _, set := range sets {
+		ks := musts(set...)
+		classes := map[string]bool{}
+		for _, k := range ks {
+			classes[classKey(k)] = true
+		}
+		var first object.Map
+		firstOrder := ""
+		permute(len(ks), func(p []int) {
+			if len(c.Failures) >= 2000 {
+				return
+			}
+			var toks []string
+			for _, i := range p {
+				toks = append(toks, "S="+set[i]+"=S78")
+			}
+			order := strings.Join(toks, ";")
+			for _, n0 := range []int{0, 9} {
+				cs := fmt.Sprintf("MAP %d %s L", n0, order)
+				m := object.NewMapSize(n0)
+				for _, i := range p {
+					m = m.Set(ks[i], val)
+				}
+				c.Eval()
+				if object.Len(m) != len(classes) {
+					c.Fail("key-class-stored-twice-or-lost:len", cs,
+						fmt.Sprintf("%d pairs %s for %d key classes", object.Len(m), stateStr(m), len(classes)))
+				}
+				for i, k := range ks {
+					if _, ok := m.Get(k); !ok {
+						c.Fail("key-class-lookup-misses-member", fmt.Sprintf("MAP %d %s G=%s", n0, order, set[i]), "not found in "+stateStr(m))
+					}
+				}
+				if first == nil {
+					first, firstOrder = m, order
+				} else if !object.Equals(m, first) || !object.Equals(first, m) || object.Cmp(m, first) != 0 {
+					c.Fail("insertion-order-changes-map:equals", cs,
+						fmt.Sprintf("%s differs from %s built by %s", stateStr(m), stateStr(first), firstOrder))
+				}
+				// delete through every member: the whole class goes, nothing else does
+				for i, k := range ks {
+					m2 := object.NewMapSize(n0)
+					for _, j := range p {
+						m2 = m2.Set(ks[j], val)
+					}
+					m2, ch := m2.Delete(k)
+					csd := fmt.Sprintf("MAP %d %s D=%s", n0, order, set[i])
+					if !ch || object.Len(m2) != len(classes)-1 {
+						c.Fail("key-class-delete:len", csd, fmt.Sprintf("changed=%v, %s for %d classes", ch, stateStr(m2), len(classes)-1))
+					}
+					for j, k2 := range ks {
+						_, ok := m2.Get(k2)
+						if same := classKey(k2) == classKey(k); ok == same {
+							c.Fail("key-class-delete:lookup", csd, fmt.Sprintf("after the delete %s found=%v in %s", set[j], ok, stateStr(m2)))
+						}
+					}
+				}
+			}
+			// the same insertions through the interpreter, unobserved, then everything read once
+			litItems = append(append([]object.Object(nil), ks...), val)
+			var st []string
+			for _, i := range p {
+				st = append(st, fmt.Sprintf("m[ul(%d)]=ul(%d)", i, len(ks)))
+			}
+			var look []string
+			for i := range ks {
+				look = append(look, fmt.Sprintf("m[ul(%d)]", i))
+			}
+			code := "m={};" + strings.Join(st, ";") + ";[[len(m),[" + strings.Join(look, ",") + "],m]][0]"
+			state.Out = &strings.Builder{}
+			r, pan := evalSrc(code)
+			c.Eval()
+			csS := "MAP 0 " + order + " L"
+			if pan != "" || r == nil || r.Type() != object.ARRAY || len(object.Elements(r)) != 3 {
+				c.Fail("key-class-source-failed", csS, pan+" "+Canon(r)+" from "+code)
+			} else {
+				el := object.Elements(r)
+				if Canon(el[0]) != fmt.Sprintf("I%d", len(classes)) {
+					c.Fail("key-class-stored-twice-or-lost:len", csS, "from source len(m)="+Canon(el[0])[1:]+" "+stateStr(el[2])+fmt.Sprintf(" for %d key classes", len(classes)))
+				}
+				for i, x := range object.Elements(el[1]) {
+					if Canon(x) != "S78" {
+						c.Fail("key-class-lookup-misses-member", fmt.Sprintf("MAP 0 %s G=%s", order, set[i]), "from source m[k]="+Canon(x)+" in "+stateStr(el[2]))
+					}
+				}
+			}
+			// correspondence: this order, then length, lookups and deletes, for the model
+			var ops []string
+			ops = append(ops, toks...)
+			ops = append(ops, "L")
+			for _, k := range set {
+				ops = append(ops, "G="+k)
+			}
+			for _, k := range set {
+				ops = append(ops, "D="+k, "L")
+			}
+			var path []op
+			var obss []string
+			m := object.NewMapSize(0)
+			for _, t := range ops {
+				o, _ := parseOp(t)
+				var ob string
+				m, ob = applyAPI(m, o)
+				obss = append(obss, ob)
+				path = append(path, o)
+			}
+			c.Case("SEQ 0 "+strings.Join(ops, " "), strings.Join(obss, " "))
+			c.NonTrivial("classes|" + order)
+			c.Count("key-classes:orders")
+		})
+	}
+}
+
 // ---------------------------------------------------------------- maps as arguments after pairs were cut off
 // Small and large maps in which one value is not a plain hashable Go value (a 9 element array, a 5 pair map, an
 // array holding one, a function); every operation that can cut that pair off (every range, rest, del of each key,
@@ -2135,6 +2360,8 @@ func runC11(c *Ctx) {
 	e.literals()
 	// several bindings alive at once: views, grown copies, two merges from one operand, everything re-read
 	e.bindingHistories()
+	// keys from equivalence classes of the key order, every insertion order
+	e.keyClasses()
 	// maps used as arguments of grol functions after pairs with unhashable values were cut off
 	e.arguments()
 	// whole programs read once at the end: in-place writes, values taken from inside functions
@@ -2235,7 +2462,12 @@ func c11Replay(e *explorer, cs string) {
 		fmt.Println("bad op", f[3])
 		return
 	}
-	e.keys = musts("I1", "F3ff8000000000000", "S61", "N", "A[I1]", "F3ff0000000000000", "I9", "B1", "I2")
+	e.keys = musts("I1", "F3ff8000000000000", "S61", "N", "A[I1]", "F3ff0000000000000", "I9", "B1", "I2", "I0", "F0000000000000000", "F8000000000000000")
+	for _, p := range path { // and every key the history itself mentions
+		if p.k != nil {
+			e.keys = append(e.keys, p.k)
+		}
+	}
 	_, obs := e.check(n0, path, o, func() string { return cs })
 	fmt.Println("observation:", obs)
 }
